@@ -170,6 +170,25 @@ theorem post_failing_fails (P : Params κ) (cfg : Cfg) (defs : Defs) (fuel : Nat
     obtain ⟨hc, _, _⟩ := execTarget_false e
     simp [e2, failT, hc]
 
+/-! the hypotheses of `post_failing_fails` are satisfiable with the checks passing *before* the command: the check wants
+    file `f` to contain `1`, the workspace has it, nothing is cached, and the command overwrites `f` with `2` -/
+def nvP : Params Nat :=
+  { K := fun _ => 0
+    run := fun _ _ => ⟨true, [], [([102], [2])]⟩
+    fx := Fixes.current }
+def nvT : Target :=
+  { label := [97], cmd := ⟨[], 0, [], [([102], [2])], false⟩, inputs := [], outs := [], deps := [], hdeps := [], ldeps := []
+    fp := [], plat := [], noCache := false, checks := [([102], some [1])] }
+def nvS : BState Nat :=
+  { fs := fun p => if p = [102] then some [1] else none
+    cache := { res := fun _ => none, cas := fun _ => false, taint := fun _ => false }
+    st := fun _ => none
+    log := [] }
+example : checksPass nvS.fs nvT.checks = true ∧
+    checksPass (fsAfter nvP (fun _ => none) nvT nvS.fs) nvT.checks = false ∧
+    (buildTarget nvP ⟨true, false⟩ (fun _ => none) 1 nvT nvS).log = nvT.label :: nvS.log :=
+  ⟨by decide, by decide, by decide⟩
+
 /-- hypotheses of the theorems above are satisfiable: a target with a check on a file that does not exist -/
 example : ∃ (t : Target) (fs : FS), ChecksOffOutputs t ∧ checksPass fs t.checks = false :=
   ⟨{ label := [97], cmd := ⟨[], 0, [], [], false⟩, inputs := [], outs := [⟨false, [111]⟩], deps := [], hdeps := [], ldeps := [],
